@@ -8,6 +8,14 @@ HUB_NOTE = ("trusted: Coq kernel + vm_compute; the granularity of Model/Hub.v (c
             "in its header); bbolt by contract; Go drivers. The tie to the code is sequential handler-level histories (agreement with the model and with the "
             "abstract sequential spec); interleavings are covered by the theorems, and by steered schedules where a stage says so.")
 META = {
+    "C17": {
+        "text": "Coq theorems over the hub transition system: with tracking on, every schedule without crash and before any close, each subscriber has exactly [] / "
+                "[active=true] / [true;false] events according to its handler's phase (the announcement precedes indexing; the end is announced also when registration "
+                "fails), none with tracking off; the event URL is built with a QueryEscape model proved to round-trip and to route back to (selector, subscriber). "
+                "Tied to the code by watcher-observed event streams over adversarial selectors on both transports, and by the hub histories.",
+        "design_ref": "DESIGN.md §5 C17", "note": HUB_NOTE,
+        "technique": "Coq proof (inductive invariant of the hub LTS; codec round-trip) + differential correspondence of watcher-observed events evaluated in Coq",
+    },
     "C01": {
         "text": "Coq theorem C01_only_matching_is_sent over the hub transition system (publishers, subscriber handlers with registration / history scan / queue / "
                 "go-live, Close, crashes; every schedule; both transports): everything ever sent to or queued for a subscriber matches it; with "
